@@ -292,35 +292,9 @@ def run(repo, rep, tier):
     rep.check('json-misc', 'text compression line lists kex.server.compression minus "none"', ok, comp[0] if comp else outf, 'text compression source changed')
 
     # ---- rule 3: order / multiset preservation ------------------------------------------------------------------------------
-    cg = CallGraph(repo)
-    reach = cg.reachable([repo.func('ssh_audit', 'audit')])
+    from props import _listedits
+    reach, seeds, is_src, cg = _listedits.scan(repo)
     nscan = 0
-
-    def is_src(e):
-        return isinstance(e, ast.Attribute) and e.attr in LIST_ATTRS and isinstance(e.ctx, ast.Load) and not (isinstance(e.value, ast.Name) and e.value.id == 'self')
-    # inter-procedural provenance: a parsed list passed as an argument makes the callee's parameter an alias of it
-    seeds = {f: set() for f in reach}
-    seeds[oas] = {'algorithms'}
-    changed = True
-    rounds = 0
-    while changed and rounds < 8:
-        changed = False
-        rounds += 1
-        for f in reach:
-            if f._module.name in ('dheat',):
-                continue
-            d = Derived(f, is_src, extra_seeds=seeds[f], elements=False)
-            for (g, site, kind) in cg.edges.get(f, []):
-                if not isinstance(site, ast.Call) or kind not in ('exact', 'dispatch') or g not in seeds:
-                    continue
-                try:
-                    b = bind_args(site, g, skip_self=(g._cls is not None and g.args.args and g.args.args[0].arg in ('self', 'cls') and not isinstance(site.func, ast.Name)))
-                except AnalysisError:
-                    continue
-                for par, a in b.items():
-                    if d.derived(a) and par not in seeds[g] and g.name != '__init__':
-                        seeds[g].add(par)
-                        changed = True
     for f in reach:
         if f._module.name in ('dheat',):
             continue
